@@ -135,9 +135,11 @@ def sample_values(case, n):
 
 CLOCKS = ["array", "array2d", "scalar", "npscalar"]
 LAYOUTS = ["flat", "row", "rows", "col", "fortran", "strided"]
-DTYPES = ["f8", "f4", "plain"]
-SELFORMS = ["plain", "numpy", "tuple", "np32"]
-DEFAULTS = {"clock": "array", "layout": "flat", "layout_k": 0, "dtype": "f8", "selform": "plain", "precall": False}
+DTYPES = ["f8", "f4", "plain", "mixed", "be"]
+SELFORMS = ["plain", "numpy", "tuple", "np32", "np0d"]
+VIAS = ["path", "pathobj", "array", "arrayview"]
+DEFAULTS = {"clock": "array", "layout": "flat", "layout_k": 0, "dtype": "f8", "selform": "plain", "precall": False,
+            "delayform": "float"}
 TEXT_DEFAULT = {"eol": "lf", "bom": False, "final_eol": True}
 
 # wall-clock instants an acquisition may run across: the stamps of the log carry the date
@@ -319,9 +321,9 @@ class C08(Prop):
                    "the reported origin; the NaN margin of the canvas is compared against the model only"]
 
     # ------------------------------------------------------------------ generation
-    def gen_pattern(self, rng, seq, sxu, syu, circular, X, Y):
-        nlines = rng.choice([1, 1, 2, 2, 3, 3, 4, 5, 6])
-        npix = rng.choice([1, 1, 2, 2, 3, 4, 5, 7, 9])
+    def gen_pattern(self, rng, seq, sxu, syu, circular, X, Y, big=False):
+        nlines = rng.choice([1, 1, 2, 2, 3, 3, 4, 5, 6]) if not big else rng.randint(15, 30)
+        npix = rng.choice([1, 1, 2, 2, 3, 4, 5, 7, 9]) if not big else rng.randint(20, 50)
         gapkind = rng.choice(["zero", "small", "mixed", "mixed", "long"])
         lines = []
         for _ in range(nlines):
@@ -379,7 +381,7 @@ class C08(Prop):
         npat = rng.choice([1, 1, 1, 2, 2, 3])
         sxu, syu, circ = self.gen_spot(rng) if spot is None else spot
         X0, Y0 = self.gen_origin(rng), self.gen_origin(rng)
-        seqs, s = [], rng.randint(1, 4)
+        seqs, s = [], rng.choice([rng.randint(1, 4), rng.randint(1, 4), rng.randint(5, 300)])
         for _ in range(npat):
             seqs.append(s)
             s += rng.randint(1, 3)
@@ -409,7 +411,8 @@ class C08(Prop):
             cx += 12 + rng.randint(0, 3)
         for k in range(npat):
             if k in selidx:
-                p = self.gen_pattern(rng, seqs[k], sxu, syu, circ, X0 + slots[k] * sxu, Y0 + rng.randint(0, 3) * syu)
+                p = self.gen_pattern(rng, seqs[k], sxu, syu, circ, X0 + slots[k] * sxu, Y0 + rng.randint(0, 3) * syu,
+                                     big=(npat == 1 and rng.random() < 0.02))
             else:
                 a, b, c = self.gen_spot(rng) if rng.random() < 0.6 else (sxu, syu, circ)
                 p = self.gen_pattern(rng, seqs[k], a, b, c, X0 + rng.randint(-40, 40) * 12345, Y0 + rng.randint(-40, 40) * 12345)
@@ -452,15 +455,16 @@ class C08(Prop):
         else:
             clock = rng.choice(["array", "array", "array2d"])
         extra = {"clock": clock, "layout": layout, "layout_k": rng.randrange(8),
-                 "dtype": rng.choice(["f8", "f8", "f8", "f4", "plain"]),
-                 "selform": rng.choice(["plain", "plain", "numpy", "numpy", "tuple", "np32"]), "precall": rng.random() < 0.15}
+                 "dtype": rng.choice(["f8", "f8", "f8", "f8", "f4", "f4", "plain", "plain", "mixed", "be"]),
+                 "selform": rng.choice(["plain", "plain", "numpy", "numpy", "tuple", "np32", "np0d"]), "precall": rng.random() < 0.15,
+                 "delayform": rng.choice(["float", "float", "np"])}
         nelem = rng.choice([1, 2, 2, 3, 3, 4])
         case = {**extra, "acq": acq, "sel": sel, "squeeze": rng.random() < 0.5,
                 "nan_mod": rng.choice([0, 0, 0, 0, 3, 4, 7, 1]) if rng.random() < 0.9 else 2, "nan_rem": 0,
                 "nelem": nelem, "vseed": rng.randint(0, 2 ** 31),
                 "base": [rng.choice([2024, 2025]), rng.randint(1, 12), rng.randint(1, 28), rng.choice([0, 11, 13, 23]),
                          rng.choice([0, 12, 59]), rng.choice([0, 58, 59]), rng.choice([0, 112, 999])],
-                "via": rng.choice(["path", "pathobj", "array", "array"]),
+                "via": rng.choice(["path", "pathobj", "array", "array", "arrayview"]),
                 "text": {"eol": rng.choice(["lf", "crlf", "crlf"]), "bom": rng.random() < 0.1, "final_eol": rng.random() < 0.85}}
         # the run crosses a date (or noon / a full hour) somewhere in the imported lines
         if rng.random() < 0.3:
@@ -525,8 +529,11 @@ class C08(Prop):
             for j, clock in enumerate(CLOCKS):
                 d = DIRS[(i + j) % 4]
                 yield self.simple(d, (i + j) % 2 == 1, 3, 4, gap=20, gs=2, layout=layout, clock=clock, layout_k=i + j,
-                                  dtype=DTYPES[(i + 2 * j) % 3], via=["path", "pathobj", "array"][(i + j) % 3],
+                                  dtype=DTYPES[(i + 2 * j) % 5], via=VIAS[(i + j) % 4], selform=SELFORMS[(i + j) % 5],
+                                  sel=[None, 1, [1], [9, 1]][(i + 2 * j) % 4], delayform=["float", "np"][j % 2],
                                   squeeze=(i % 2 == 0), precall=(j == i % 4))
+        # a raster far larger than the others (sizes above any small threshold)
+        yield self.simple("rl", True, 23, 41, gap=10, gs=1, squeeze=True, nelem=1)
         # a signal of a single sample, and a two-sample one, with the clock as a float
         yield self.simple("lr", False, 1, 1, gap=0, gs=0, take=1, clock="scalar", layout="row")
         yield self.simple("bt", False, 1, 2, gap=0, gs=0, take=2, clock="npscalar", layout="col", dtype="plain")
@@ -631,15 +638,16 @@ class C08(Prop):
         clock, layout, dtype = opt(case, "clock"), opt(case, "layout"), opt(case, "dtype")
         text = {**TEXT_DEFAULT, **case.get("text", {})}
         if clock not in CLOCKS or layout not in LAYOUTS or dtype not in DTYPES or opt(case, "selform") not in SELFORMS \
-                or text["eol"] not in ("lf", "crlf") or not 1 <= case["nelem"] <= len(ELEMENTS):
+                or text["eol"] not in ("lf", "crlf") or not 1 <= case["nelem"] <= len(ELEMENTS) or case["via"] not in VIAS:
             raise core.InternalError(f"bad case options {clock} {layout} {dtype}")
         n = signal_count(acq)
         shape = layout_shape(layout, opt(case, "layout_k"), n)
         scalar = clock in ("scalar", "npscalar")
         # the values of the signal are the harness's; the Lean side is told which samples are NaN in every element
         flat = sample_values(case, n)
-        if dtype == "f4":
-            flat = flat.astype([(nm, np.float32) for nm in flat.dtype.names])
+        if dtype in ("f4", "mixed", "be"):                     # float32 records, float64 / float32 fields mixed, big-endian
+            flat = flat.astype([(nm, {"f4": "<f4", "be": ">f8", "mixed": "<f4" if i % 2 == 0 else "<f8"}[dtype])
+                                for i, nm in enumerate(flat.dtype.names)])
         names = flat.dtype.names if dtype != "plain" else flat.dtype.names[:1]
         isnan = [[bool(np.isnan(flat[nm][k])) for nm in names] for k in range(n)]
         allnan = [all(v) for v in isnan]
@@ -694,6 +702,11 @@ class C08(Prop):
             via = case["via"]
             try:
                 log = str(path) if via == "path" else Path(path) if via == "pathobj" else laser.read_nwi_laser_log(path)
+                if via == "arrayview":                         # the log as a non-contiguous view of a larger record array
+                    big = np.concatenate([log, log])
+                    big[1::2] = log[::-1]
+                    big[::2] = log
+                    log = big[::2]
             except Exception as e:
                 log = None
                 impl = {"raises": type(e).__name__, "msg": str(e)[:200]}
@@ -725,7 +738,10 @@ class C08(Prop):
                                 else tuple(x) if form == "tuple" else list(x))
                     if x is None:
                         return None
-                    return np.int64(x) if form == "numpy" else np.int32(x) if form == "np32" else x
+                    return (np.int64(x) if form == "numpy" else np.int32(x) if form == "np32" else np.array(x) if form == "np0d"
+                            else x)
+
+                dly = np.float64(delay) if opt(case, "delayform") == "np" else delay
 
                 restore()
                 if opt(case, "precall"):
@@ -733,12 +749,12 @@ class C08(Prop):
                     # looked at.  Arguments it altered are restored: the observed call gets the modelled input.
                     other = None if sel is not None else [p["seq"] for p in acq["patterns"]][:1]
                     try:
-                        laser.sync_data_nwi_laser_log(data, times, log, sequence=seq_arg(other), delay=delay + 0.0625,
+                        laser.sync_data_nwi_laser_log(data, times, log, sequence=seq_arg(other), delay=dly + 0.0625,
                                                       squeeze=not squeeze)
                     except Exception:
                         pass
                     restore()
-                sync, params = laser.sync_data_nwi_laser_log(data, times, log, sequence=seq_arg(sel), delay=delay, squeeze=squeeze)
+                sync, params = laser.sync_data_nwi_laser_log(data, times, log, sequence=seq_arg(sel), delay=dly, squeeze=squeeze)
                 cells = []
                 for r in range(sync.shape[0]):
                     for c in range(sync.shape[1]):
@@ -854,6 +870,11 @@ class C08(Prop):
             f.add("selform:" + opt(case, "selform"))
         if opt(case, "precall"):
             f.add("precall")
+        f.add("delay-type:" + opt(case, "delayform"))
+        if sum(len(pats[i]["lines"]) * pats[i]["npix"] for i in selidx) >= 400:
+            f.add("size:400+pixels")
+        if any(p["seq"] >= 5 for p in pats):
+            f.add("seq>=5")
         return f
 
     # ------------------------------------------------------------------ shrinking
